@@ -196,6 +196,7 @@ func runC06(args []string) error {
 			applied = marker
 		}
 		nst := 3 + r.Intn(10)
+		var ends []uint64
 		for s := 0; s < nst; s++ {
 			switch k := r.Intn(12); {
 			case k < 2:
@@ -227,6 +228,19 @@ func runC06(args []string) error {
 					f = lg.marker + 1 + uint64(r.Intn(int(applied-lg.marker)+2))
 				}
 				la := applied + 1
+				// LogServer.Replicate computes the end of the range once per call and keeps it for all queries of the
+				// stream, while other streams (started later, with a larger applied index) shape the cache: an end that is
+				// older than what the cache has already seen
+				if len(ends) > 0 && r.Intn(4) == 0 {
+					if old := ends[r.Intn(len(ends))]; old > lg.marker+1 {
+						la = old
+						if f > la {
+							f = lg.marker + 1 + uint64(r.Intn(int(la-lg.marker)))
+						}
+						hq.Inc("query with an older end")
+					}
+				}
+				ends = append(ends, applied+1)
 				rg := dragonboat.LogRange{FirstIndex: f, LastIndex: la}
 				sa, serr := simple.QueryRaftLog(ctx, 7, rg, maxSize)
 				ncuts := len(lg.cuts)
